@@ -498,7 +498,18 @@ Section UtMapBridge.
     intros ttl h l' rs L M E. rewrite generated_utmap_run_is_literal_run in E by assumption.
     eapply ul_cells_match_entries; eauto.
   Qed.
+
+  (* ---- the constructor, translated (member initialisers + body): it builds the literal machine's initial state,
+     so the whole-history theorem starts from what the source constructs ---- *)
+  Lemma g_init_ok (ttl : Z) : (g_init ttl : uml K V) = uml_init ttl.
+  Proof. reflexivity. Qed.
+  Theorem generated_utmap_constructed_no_UB_on_any_history : forall ttl (h : list (ev K V)),
+      (0 <= ttl)%Z -> mono_from 0 h ->
+      exists l', run_res g_step (g_init ttl) h = Ok (l', snd (run um_step (um_init ttl) h)) /\
+                 ul_rep l' (fst (run um_step (um_init ttl) h)).
+  Proof. intros ttl h L M. rewrite g_init_ok. apply generated_utmap_no_UB_on_any_history; auto. Qed.
 End UtMapBridge.
 
 Print Assumptions generated_utmap_cells_match_entries.
 Print Assumptions generated_utmap_no_UB_on_any_history.
+Print Assumptions generated_utmap_constructed_no_UB_on_any_history.
